@@ -93,7 +93,7 @@ structure HRule where
   rPorts : List PortRange := []
   prio : Nat
   id : String := ""
-deriving Repr
+deriving Repr, DecidableEq
 
 inductive Err | notSupported | noOp | missingIPSet
 deriving DecidableEq, Repr
